@@ -70,6 +70,12 @@ def main():
         print("CHECKER-ERROR: no rule pack for %s" % prop)
         return 2
     rep = common.Report(prop)
+    import signal
+
+    def _timeout(_s, _f):
+        raise RuntimeError("rule pack exceeded its time budget")
+    signal.signal(signal.SIGALRM, _timeout)
+    signal.alarm(int(os.environ.get("EPBD_TIME_BUDGET", "900")))
     try:
         mod.run(ctx, rep)
     except common.AnchorMissing as e:
@@ -79,6 +85,7 @@ def main():
         print("CHECKER-ERROR: rule pack crashed")
         traceback.print_exc()
         return 2
+    signal.alarm(0)
     if rep.errors:
         for e in rep.errors:
             print("CHECKER-ERROR: %s" % e)
@@ -97,7 +104,10 @@ def main():
     for k in sorted(seen_known):
         print("KNOWN-FINDING: property=%s %s %s" % (prop, k, known_keys[k].get("what", "")))
     n = 0
-    for o in viol:
+    shown = viol[:25]
+    if len(viol) > len(shown):
+        print("(%d violations; the first %d are listed)" % (len(viol), len(shown)))
+    for o in shown:
         n += 1
         rp = os.path.join(VERIF, "evidence", "%s.violation-%d.json" % (prop, n))
         with open(rp, "w") as fh:
